@@ -19,7 +19,7 @@ import common
 from common import Case, Failure, f2x, x2f
 
 PID = 'C15'
-LEAN_TARGETS = ['Nitime.Props.C15', 'Nitime.Props.C15Opts', 'Nitime.Props.C19Rows', 'Nitime.Props.C15Obj', 'Nitime.Props.C15Band']
+LEAN_TARGETS = ['Nitime.Props.C15', 'Nitime.Props.C15Opts', 'Nitime.Props.C19Rows', 'Nitime.Props.C15Obj', 'Nitime.Props.C15Band', 'Nitime.Props.C15Cross']
 RULE = ('inputs: units s/ms/us x intervals {whole, decimal, known re-quantising (0.81327 s, 2.3 ms, 1.7 us ...), random} x '
         'non-zero t0 x 1-/2-/3-d data where the analyzer admits it; every TimeSeries-valued analyzer output + spectral/'
         'coherence/correlation/SNR/Granger/event-related array outputs; generated NIfTI volumes (single/multiple files, '
@@ -38,11 +38,19 @@ RULE = ('inputs: units s/ms/us x intervals {whole, decimal, known re-quantising 
         'transient per channel, judged by the oracle only against exact integer lag sums / rational moments / definitions by np.fft on the series length / Parseval; '
         'fourier band edges exactly ON a DFT bin and one ulp to either side (round numbers such as TR 2 s x 200 volumes x 0.01-0.1 Hz, dyadic grids, arbitrary '
         'lengths; only tie-free configurations) through FilterAnalyzer and time_series_from_file, and as kept-bin masks against the Lean model; '
+        'ROUND 5 (harness/c15_r5.py): runs of MIXED dtypes (int16 / int32 / uint8 / float32 / float64 / complex64 / complex128, every ordered pair, 2-4 runs, 1-d / 2-d, '
+        'different lengths / t0 / units) against the exact float64 / complex128 embeddings, files whose stored dtypes differ; for every output of every analyzer class two live '
+        'objects on series that differ ONLY in sampling rate / length / unit / t0 with the same parameters in Hz: this process A-then-B, a fresh interpreter B-then-A, plus the '
+        'direct algorithm call on each object\'s own data and rate; the reader twice with one filter dict and two TRs; histories of `.fir` requests (same taps / band / window at '
+        'different rates, repeats) and exact-grid runs of four dtypes against the Lean model (`firhist`, `concatdt`); '
         'distinct = distinct protocol line; non-trivial = t0 != 0 or unit != s or re-quantising interval')
 ASSUMPTIONS = ['numpy/scipy routines called by the analyzers are taken as the algorithm layer (data fidelity is judged against direct calls of that layer)',
                'nibabel get_fdata() is the reference content of a NIfTI file',
                'picosecond magnitudes stay below 2^53 (intervals < 2.5 h) so int64->float64 conversions in the constructor are exact']
-TRUSTED_EXTRA = ['harness/translate_c15.py gen_analyzer_state (AST extraction of attribute stores on self outside __init__/set_input/reset, uses of the instance dict, '
+TRUSTED_EXTRA = ['harness/translate_c15.py gen_module_state (AST extraction of module-level names written inside functions / caching decorators of nitime/analysis/*.py and of the '
+                 'block-building expression of concatenate_time_series into Generated/ModuleState.lean); Model/C15Cross.lean abstracts the FIR design to the quantities it is computed from '
+                 '(taps, window, edges over the rate) and a dtype to a rounding map on a 2^-8 grid (float32 = a coarser grid); the numeric kernels / real float32 rounding are judged per run',
+                 'harness/translate_c15.py gen_analyzer_state (AST extraction of attribute stores on self outside __init__/set_input/reset, uses of the instance dict, '
                  'writes into attribute-held objects, set_input overrides without reset, and memory-layout / identity probes in nitime/analysis/*.py and nitime/fmri/io.py '
                  'into Generated/AnalyzerState.lean); BaseAnalyzer.reset() deletes exactly the OneTimeProperty entries of the instance dict (descriptors.py, C07\'s subject); '
                  'the object model of Model/C15Obj.lean abstracts fit_model / the pairwise coherency to parameters `fit` / `pair` (their values are judged per run)',
@@ -1047,6 +1055,9 @@ def cases(rng, tier, seed):
     # --- round 4: which bins the fourier filter's closed band keeps, edges ON the grid (model op `band`, when the model has it)
     import c15_r4
     out += c15_r4.r4_cases(rng, tier, seed)
+    # --- round 5: runs of MIXED dtypes (int16 / int32 / uint8 / float32 / float64, both orders) through the existing `concat` model op
+    import c15_r5
+    out += c15_r5.r5_cases(rng, tier, seed)
     return out
 
 
@@ -1985,8 +1996,10 @@ def oracle(rng, tier, seed, focus, cases=None):
     fails, n = [], 0
     import c15_r2
     import c15_r4
+    import c15_r5
     for c in (cases or []):
-        j = JUDGES.get((c.meta or {}).get('op')) or c15_r2.R2_JUDGES.get((c.meta or {}).get('op')) or c15_r4.R4_JUDGES.get((c.meta or {}).get('op'))
+        j = (JUDGES.get((c.meta or {}).get('op')) or c15_r2.R2_JUDGES.get((c.meta or {}).get('op')) or c15_r4.R4_JUDGES.get((c.meta or {}).get('op'))
+             or c15_r5.R5_JUDGES.get((c.meta or {}).get('op')))
         if j:
             n += 1
             fails += j(c)
@@ -2025,7 +2038,12 @@ def oracle(rng, tier, seed, focus, cases=None):
     import c15_r4
     r4f, r4stats = c15_r4.r4_oracle(rng, tier, seed)
     fails += r4f
-    r2stats = dict(r2stats, r4=r4stats)
+    # round 5: runs / files of mixed dtypes (L1 across runs); two live objects of one class that differ only in rate / length / unit / t0,
+    # this process A-then-B vs a fresh interpreter B-then-A + direct algorithm calls (L2 across objects); the reader twice with one filter dict
+    import c15_r5
+    r5f, r5stats = c15_r5.r5_oracle(rng, tier, seed)
+    fails += r5f
+    r2stats = dict(r2stats, r4=r4stats, r5=r5stats)
     for f in fails:
         f.replay['key'] = f.key
     return fails, {'r2': r2stats, 'judged_cases': n, 'read_histories': nseq, 'spectral_inputs': k, 'history_pairs': npairs, 'history_outputs': nout, 'failed': len(fails), 'focus': len(focus)}
@@ -2047,6 +2065,12 @@ def replay(d):
     elif op in ('large', 'ongrid', 'lopsided', 'in_ts'):
         import c15_r4
         fs = c15_r4.r4_replay(m)
+    elif op in ('concat-dtype', 'reader-dtype', 'cross', 'cross-all', 'reader-twice'):
+        import c15_r5
+        fs = c15_r5.r5_replay(m)
+    elif op in ('firhist', 'concatdt'):
+        import c15_r5
+        fs = c15_r5.R5_JUDGES[op](c)
     elif op == 'band':
         import c15_r4
         fs = c15_r4.judge_band(c)
